@@ -22,6 +22,7 @@ import (
 	"fmt"
 	"io"
 	"os"
+	"runtime/debug"
 	"sync"
 	"testing"
 	"testing/synctest"
@@ -782,16 +783,25 @@ func rcvRunStream(sc *rcvSub, ops []rcvOp, res *KResult) {
 	r := &rcvStreamRun{sc: sc, ops: ops, res: res}
 	r.init()
 	defer r.teardown()
-	for _, op := range ops {
-		if res.Failed() || r.ended {
-			break
+	func() {
+		defer func() {
+			if p := recover(); p != nil {
+				// a panic of the code under test; it may have unwound through a locked section
+				res.Fail("panic: "+ksanitize(fmt.Sprint(p)), "%v\n%s", p, debug.Stack())
+				r.forceUnlock()
+			}
+		}()
+		for _, op := range ops {
+			if res.Failed() || r.ended {
+				break
+			}
+			res.Events++
+			r.exec(op)
 		}
-		res.Events++
-		r.exec(op)
-	}
-	if !res.Failed() && !r.ended {
-		r.finish()
-	}
+		if !res.Failed() && !r.ended {
+			r.finish()
+		}
+	}()
 	fl := uint64(0)
 	for i, b := range []bool{r.finKnown, r.finalKnown, r.cancelLocal, r.shutdown, r.eofSeen, r.errSeen, r.ended, r.snd.completed > 0} {
 		if b {
@@ -861,19 +871,36 @@ func (r *rcvStreamRun) init() {
 	r.readerAlive = true
 	go func() {
 		for rq := range r.reqCh {
-			var n int
-			var err error
-			if rq.peek {
-				n, err = r.str.Peek(r.rbuf[:rq.n])
-			} else {
-				n, err = r.str.Read(r.rbuf[:rq.n])
-			}
+			n, err := r.call(rq)
 			r.resCh <- rcvRes{req: rq, n: n, err: err}
 		}
 	}()
 	r.known = map[*wire.StreamFrame]*rcvFrameInfo{}
 	r.poolFlush()
 	r.poolPrime()
+}
+
+type rcvPanic struct{ msg, stack string }
+
+func (p *rcvPanic) Error() string { return "panic: " + p.msg }
+
+func (r *rcvStreamRun) call(rq rcvReq) (n int, err error) {
+	defer func() {
+		if p := recover(); p != nil {
+			n, err = 0, &rcvPanic{msg: fmt.Sprint(p), stack: string(debug.Stack())}
+		}
+	}()
+	if rq.peek {
+		return r.str.Peek(r.rbuf[:rq.n])
+	}
+	return r.str.Read(r.rbuf[:rq.n])
+}
+
+// forceUnlock releases the stream's mutex if a panic left it locked, so that the
+// teardown (closeForShutdown, release of a blocked reader) cannot hang.
+func (r *rcvStreamRun) forceUnlock() {
+	r.str.mutex.TryLock()
+	r.str.mutex.Unlock()
 }
 
 func (r *rcvStreamRun) teardown() {
@@ -1203,6 +1230,11 @@ func (r *rcvStreamRun) onResult(rs rcvRes) {
 	}
 	n, err := rs.n, rs.err
 	res.Logf("  <- %s(%d) = %d, %v (readPos %d)", what, rs.req.n, n, err, r.readPos)
+	if pe, ok := err.(*rcvPanic); ok {
+		res.Fail("panic: "+ksanitize(pe.msg), "in %s: %s\n%s", what, pe.msg, pe.stack)
+		r.forceUnlock()
+		return
+	}
 	if rs.req.peek && rs.req.n == 0 {
 		// documented: peeking nothing always succeeds
 		if n != 0 || err != nil {
